@@ -516,6 +516,55 @@ fn multi_file(dir: &Path, data: &[u8], rep: &mut Report) {
     }
 }
 
+/// Input that arrives in pieces (pipes, FIFOs, terminals): the digest must not depend on how the
+/// reads are cut. Burst boundaries are the environment's answers, enumerated.
+fn bursty_inputs(dir: &Path, data: &[u8], rep: &mut Report) {
+    let total = 150_000usize;
+    let d = &data[..total];
+    let want_hex = crate::refmodel::hex(&b3spec::hash32(&b3spec::Mode::hash(), d));
+    let cuts: Vec<Vec<usize>> = vec![vec![1000, 60_000], vec![1], vec![65_535], vec![65_536, 65_537], vec![16_384, 16_385, 100_000], vec![149_999], vec![64, 128, 1024, 1025, 2048]];
+    for cut in &cuts {
+        let mut bursts: Vec<&[u8]> = vec![];
+        let mut at = 0;
+        for &c in cut {
+            // pieces of at most 60000 bytes so that one write fits the pipe buffer
+            let mut a = at;
+            while a < c {
+                let e = (a + 60_000).min(c);
+                bursts.push(&d[a..e]);
+                a = e;
+            }
+            at = c;
+        }
+        let mut a = at;
+        while a < total {
+            let e = (a + 60_000).min(total);
+            bursts.push(&d[a..e]);
+            a = e;
+        }
+        for (what, argv) in [("stdin", vec![]), ("stdin as -", vec![os("-")]), ("stdin --no-mmap", vec![os("--no-mmap")])] {
+            rep.inc("evaluations");
+            rep.inc("distinct_nontrivial");
+            rep.inc("bursty_input_runs");
+            let out = crate::run_b3sum_bursts(dir, &argv, &bursts);
+            let want = format!("{}  -\n", want_hex);
+            if out.code != Some(0) || out.stdout != want.as_bytes() {
+                viol(rep, "hash:bursty-input", format!("b3sum on {} delivered in bursts cut at {:?}: exit {:?}, stdout {:?}, expected {:?}", what, cut, out.code, String::from_utf8_lossy(&out.stdout), want), "bursty", json!({"input": what, "cuts": cut}));
+            }
+        }
+        for (what, argv) in [("a FIFO", vec![]), ("a FIFO --no-mmap", vec![os("--no-mmap")])] {
+            rep.inc("evaluations");
+            rep.inc("bursty_input_runs");
+            if let Some(out) = crate::run_b3sum_fifo(dir, &argv, "fifo_in", &bursts) {
+                let want = format!("{}  fifo_in\n", want_hex);
+                if out.code != Some(0) || out.stdout != want.as_bytes() {
+                    viol(rep, "hash:bursty-input", format!("b3sum on {} delivered in bursts cut at {:?}: exit {:?}, stdout {:?}, expected {:?}", what, cut, out.code, String::from_utf8_lossy(&out.stdout), want), "bursty", json!({"input": what, "cuts": cut}));
+                }
+            }
+        }
+    }
+}
+
 pub fn run(args: &Args, rep: &mut Report) {
     let t = args.thorough();
     let dir = scratch("c12");
@@ -536,6 +585,7 @@ pub fn run(args: &Args, rep: &mut Report) {
     let _ = t0;
     key_cases(&dir, rep);
     multi_file(&dir, &data, rep);
+    bursty_inputs(&dir, &data, rep);
     // (2) --check: sequences of line kinds
     let mut work: Vec<(Vec<Vec<Kind>>, bool)> = vec![];
     for len in 1..=(if t { 3 } else { 2 }) {
@@ -562,7 +612,7 @@ pub fn run(args: &Args, rep: &mut Report) {
     });
     rep.merge(r);
     let _ = std::fs::remove_dir_all(&dir);
-    rep.rule = format!("(1) b3sum run on files: {} of size x mode (plain, --keyed with key on stdin, --derive-key) x --length x --seek (incl. 64*2^32 and 2^64-1-length) x --no-mmap x --num-threads x output form (names, --no-names, --raw, --tag), plus stdin input, key lengths 0..64, several files with one missing; stdout must equal the spec stream S[seek..seek+length] in the documented form; (2) --check on checkfiles enumerated as sequences of 15 line kinds (5 good forms, stale, missing, 8 malformed): all sequences of length <= {} (and {} over 7 kinds), with and without --quiet, and all pairs of checkfiles: exit 0 iff all good, one OK/FAILED line per entry in order, one diagnostic per malformed line, correct warning count, never abnormal termination; non-trivial = distinct invocations",
+    rep.rule = format!("(1) b3sum run on files: {} of size x mode (plain, --keyed with key on stdin, --derive-key) x --length x --seek (incl. 64*2^32 and 2^64-1-length) x --no-mmap x --num-threads x output form (names, --no-names, --raw, --tag), plus stdin input, stdin and a FIFO delivering 150000 bytes in bursts cut at seven boundary sets (each burst written only after the previous one was consumed, so b3sum's reads come back short exactly there), key lengths 0..64, several files with one missing; stdout must equal the spec stream S[seek..seek+length] in the documented form; (2) --check on checkfiles enumerated as sequences of 15 line kinds (5 good forms, stale, missing, 8 malformed): all sequences of length <= {} (and {} over 7 kinds), with and without --quiet, and all pairs of checkfiles: exit 0 iff all good, one OK/FAILED line per entry in order, one diagnostic per malformed line, correct warning count, never abnormal termination; non-trivial = distinct invocations",
         if t { "the full product" } else { "all pairs of axis values (others at base)" }, if t { 3 } else { 2 }, if t { "length 4" } else { "length 3" });
     rep.sample(json!({"kind": "hash", "argv": ["--keyed", "--length", "131", "--seek", "274877906943", "--no-mmap", "--tag", "f16385"], "stdin": "32-byte key"}));
     rep.sample(json!({"kind": "check", "checkfile": ["GoodEscaped", "NonAsciiHash", "GoodTagSpaces"], "expect": "exit 1, two OK lines, one diagnostic, WARNING: 1"}));
